@@ -71,6 +71,8 @@ impl Path {
                         to: pt,
                     };
                     for l in c.flattened(tolerance) {
+                        #[cfg(feature = "verif")]
+                        crate::verif::tick(crate::verif::TickSite::FlattenQuad);
                         flattened.ops.push(PathOp::LineTo(l));
                     }
                     cur_pt = Some(pt);
@@ -84,6 +86,8 @@ impl Path {
                         to: pt,
                     };
                     for l in c.flattened(tolerance) {
+                        #[cfg(feature = "verif")]
+                        crate::verif::tick(crate::verif::TickSite::FlattenCubic);
                         flattened.ops.push(PathOp::LineTo(l));
                     }
                     cur_pt = Some(pt);
